@@ -264,7 +264,7 @@ func (s *scriptedStore) logCall(op string, k string, vid int, ifmatch string, cl
 		sym = []string{k}
 	}
 	s.events = append(s.events, map[string]any{"e": "call", "op": op, "key": sym, "vid": vid, "ifmatch": ifmatch,
-		"class": class, "upload": upload, "res": res, "check": true, "after": s.proj(k)})
+		"class": class, "upload": upload, "res": res, "check": true, "judge": true, "after": s.proj(k)})
 }
 
 func (s *scriptedStore) DeleteObject(_ context.Context, _ storage.BucketName, key storage.ObjectKey, opts *storage.DeleteObjectOptions) (*storage.DeleteObjectResult, error) {
